@@ -121,6 +121,7 @@ class SdoClient {
   Sim &s; Ctx &c; uint32_t req_id, rsp_id;
   std::function<void()> between;     // interleaving hook, called before every request of a transfer
   std::vector<Frame> foreign;        // frames seen on other identifiers while a transfer ran
+  std::function<void()> before_ack;
   SdoClient(Sim &sim, uint32_t rq, uint32_t rs) : s(sim), c(sim.c), req_id(rq), rsp_id(rs) {}
 
   std::vector<Frame> xfer(const Frame &f) {
@@ -239,6 +240,7 @@ class SdoClient {
       if (nbs != blksize) res.blksize_changes++;
       for (uint32_t i = 0; i < k; i++) res.data.insert(res.data.end(), blk[i].d + 1, blk[i].d + 8);
       acked += k;
+      if (before_ack) before_ack();    // e.g. traffic on another server between a sub-block and its acknowledge
       Frame a; a.id = req_id; a.dlc = 8; a.d[0] = 0xA2; a.d[1] = (uint8_t)k; a.d[2] = nbs;
       VLOG(c, "  (ack %u of %u, next blksize %u)", k, want, nbs);
       blksize = nbs;
